@@ -417,6 +417,25 @@ def gen_extra(thorough: bool) -> Iterator[tuple[str, list[list[Any]]]]:
     yield "same-shape-routines", [shared(1, ("a", "b")), shared(2, ("c", "d")), shared(3, ("e", "f"))]
     yield "same-shape-routines", [shared(1, ("a", "b")), [P("m"), Ctl("end")], shared(2, ("c", "d"))]
 
+    # cases that only break / share the default's branch, not adjacent to each other
+    yield "switch-shared-empty", [[Switch(1, [Case([1], [Ctl("break")]), Case([2], [P("a"), Ctl("break")]), Case([3], [Ctl("break")])]), P("z"), Ctl("end")]]
+    yield "switch-shared-empty", [[Switch(1, [Case([1], [Ctl("break")]), Case([2], [P("a"), Ctl("break")]), Case([3], [Ctl("break")]), Case([4], [P("b"), Ctl("break")]),
+                                              Case([5], [Ctl("break")])]), P("z"), Ctl("end")]]
+    yield "switch-shared-empty", [[Switch(1, [Case([0], []), Default([P("x"), Ctl("break")]), Case([1], [P("y"), Ctl("break")]), Case([2], [Jump("sx")])]), P("z"), Label("sx"),
+                                   Ctl("end")]]
+    yield "switch-shared-empty", [[Switch(1, [Case([1], [P("a"), Ctl("break")]), Default([Ctl("break")]), Case([3], [Ctl("break")]), Case([4], [P("b")])]), P("z"), Ctl("end")]]
+    # a loop that is also entered in the middle of its body
+    yield "loop-entered-in-the-middle", [[P("p"), Jump("mid"), Forever([P("a"), If(False, [Hdr(1)], [Ctl("continue")]), Label("mid"), P("b"), If(False, [Hdr(2)], [Ctl("break_loop")])]),
+                                          P("q"), Ctl("end")]]
+    yield "loop-entered-in-the-middle", [[If(False, [Hdr(3)], [Jump("mid")]), Forever([P("a"), Label("mid"), P("b"), If(False, [Hdr(2)], [Ctl("break_loop")]), P("c")]), P("q"), Ctl("end")]]
+    yield "loop-entered-in-the-middle", [[P("p"), Jump("mid"), While(False, Hdr(1), [P("a"), Label("mid"), P("b")]), P("q"), Ctl("end")]]
+    yield "loop-entered-in-the-middle", [[If(False, [Hdr(1)], [P("pre"), Jump("inside")]),
+                                          Forever([P("a"), If(False, [Hdr(2)], [Ctl("continue")]), Label("inside"), If(False, [Hdr(3)], [Ctl("break_loop")]), P("b")]),
+                                          P("c"), Ctl("end")]]
+    yield "loop-entered-in-the-middle", [[If(False, [Hdr(1)], [Jump("inside")]),
+                                          Forever([If(False, [Hdr(2)], [P("a"), Ctl("continue")]), Label("inside"), P("b"), If(True, [Hdr(3)], [Ctl("break_loop")])]),
+                                          Ctl("end")]]
+
     def ifs(k: int, names: tuple[str, str, str]) -> list[Any]:
         return [If(False, [Hdr(k)], [P(names[0])], [], [P(names[1])]), P(names[2]), Ctl("end")]
     yield "same-shape-routines", [ifs(1, ("a", "b", "c")), ifs(2, ("d", "e", "f"))]
